@@ -320,6 +320,26 @@ fn main() {
         t
     });
 
+    // S3b normalized on m*2^a*5^b (trailing decimal zeros = min(a, b) when m is coprime to 10)
+    let amax: u32 = tier.pick(72, 140);
+    let exps: Vec<u32> = (0..=amax).collect();
+    run.bound("S3b_two_five_exponents", format!("a, b in 0..={}", amax));
+    run.par("S3b normalized: m*2^a*5^b", exps.len(), |ai| {
+        let mut t = Tally::default();
+        for (a, b, n) in two_five_ints(&[exps[ai]], &exps, &[1, 3, -7]) {
+            for s in [0i128, 5, -5] {
+                let x = Dec { n: n.clone(), s };
+                t.states += 1;
+                t.transitions += 1;
+                t.nontrivial += 1;
+                if let Some(viol) = check_normalized(&x) {
+                    run.report(viol.attr("v2", a).attr("v5", b));
+                }
+            }
+        }
+        t
+    });
+
     // S4 extension by k digits
     let ks: Vec<u64> = if tier.is_thorough() { (0..=5000).collect() } else { (0..=620).chain([1000, 1024, 4096, 5000]).collect() };
     run.bound("S4_extension", if tier.is_thorough() { json!("every k 0..=5000") } else { json!("every k 0..=620 plus 1000, 1024, 4096, 5000") });
